@@ -446,7 +446,7 @@ class BatteryStatusTracker(ComponentStatusTracker, BackgroundService):
         """
         now = datetime.now(tz=timezone.utc)
         diff = now - timestamp
-        return diff > self._max_data_age
+        return diff >= self._max_data_age
 
     def _is_message_reliable(self, message: ComponentData) -> bool:
         """Check if message is too old to be considered as reliable.
